@@ -47,6 +47,7 @@ import (
 
 	"github.com/mgtv-tech/redis-GunYu/config"
 	"github.com/mgtv-tech/redis-GunYu/pkg/redis/checkpoint"
+	"github.com/mgtv-tech/redis-GunYu/syncer"
 )
 
 var modes = []config.ReplayMode{config.ReplayModeSync, config.ReplayModePipeline, config.ReplayModeParallel}
@@ -67,11 +68,23 @@ type caseCfg struct {
 	BufSize     int
 	Gated       bool // the refusable unit is only handed out after every earlier unit was applied
 	Probe       bool
+	ReplaceTag  bool // output.replay.replaceHashTag: the snapshot path strips the first '{' and '}' of every key
+	RdbParallel int  // snapshot replay workers
+	// snapshot-completeness cases: a large snapshot, one slow node, optionally a target error
+	SnapOnly bool
+	SnapKeys int
+	Directed int    // >= 0: the cross-slot unit is the minimal two-key instance of multi-key command #Directed
+	SlowNode int    // -1 = none
+	Fault    string // "", "oom-queued" (→ EXECABORT), "oom-exec"
 }
 
 func (c caseCfg) String() string {
-	return fmt.Sprintf("mode=%s terminal=%s snapshot=%s nodes=%d window=%d parallelism=%d filter=%v clean=%d after=%d plan=%d buf=%d gated=%v",
-		c.Mode, c.Terminal, c.Snapshot, c.Nodes, c.Window, c.Parallelism, c.Filter, c.NClean, c.NAfter, c.PlanStyle, c.BufSize, c.Gated)
+	if c.SnapOnly {
+		return fmt.Sprintf("snapshot-only mode=%s snapshot=%s keys=%d nodes=%d rdb-workers=%d slow-node=%d fault=%q replaceHashTag=%v filter=%v",
+			c.Mode, c.Snapshot, c.SnapKeys, c.Nodes, c.RdbParallel, c.SlowNode, c.Fault, c.ReplaceTag, c.Filter)
+	}
+	return fmt.Sprintf("mode=%s terminal=%s snapshot=%s nodes=%d window=%d parallelism=%d filter=%v clean=%d after=%d plan=%d buf=%d gated=%v replaceHashTag=%v rdb-workers=%d",
+		c.Mode, c.Terminal, c.Snapshot, c.Nodes, c.Window, c.Parallelism, c.Filter, c.NClean, c.NAfter, c.PlanStyle, c.BufSize, c.Gated, c.ReplaceTag, c.RdbParallel)
 }
 
 func genCase(i int, r *rand.Rand) caseCfg {
@@ -88,6 +101,34 @@ func genCase(i int, r *rand.Rand) caseCfg {
 	c.PlanStyle = r.Intn(4)
 	c.BufSize = []int{64, 4096, 64 * 1024}[r.Intn(3)]
 	c.Gated = r.Intn(4) != 0
+	c.ReplaceTag = c.Snapshot != "empty" && r.Intn(2) == 0
+	c.RdbParallel = []int{1, 1, 2, 4}[r.Intn(4)]
+	c.SlowNode = -1
+	// two of three cross-slot units walk through the multi-key commands in their minimal form
+	c.Directed = -1
+	if c.Terminal == "cross-slot" {
+		if n := (i/9)*3 + i%3; n%3 != 2 {
+			c.Directed = n - n/3
+		}
+	}
+	return c
+}
+
+var faults = []string{"", "oom-queued", "", "oom-exec"}
+
+// snapCase: a few hundred small keys spread over all nodes, 2–8 snapshot workers, one node whose
+// EXEC replies are late (so one worker is still busy when everything else is done), every other
+// case with a target error on that worker's last key.  No stream phase.
+func snapCase(i int, r *rand.Rand) caseCfg {
+	c := genCase(i, r)
+	c.SnapOnly = true
+	c.Terminal = "clean"
+	c.Snapshot = snapKinds[1+i%2]
+	c.Fault = faults[i%4]
+	c.ReplaceTag = (i/4)%2 == 1
+	c.RdbParallel = []int{2, 3, 4, 8}[r.Intn(4)]
+	c.SnapKeys = 150 + r.Intn(250)
+	c.SlowNode = r.Intn(c.Nodes)
 	return c
 }
 
@@ -104,6 +145,10 @@ func probeCase(i int, r *rand.Rand) caseCfg {
 	c.NAfter = 1
 	c.Gated = true
 	c.Probe = true
+	c.Directed = -1
+	if c.Terminal == "cross-slot" {
+		c.Directed = 25 + i/2 // continues where the regular quick-tier cases stop
+	}
 	return c
 }
 
@@ -167,12 +212,14 @@ func main() {
 		"case = (mode, terminal unit kind, snapshot kind) cycled by index × PRNG(seed,i) → (3–4 node cluster double, window, lanes, optional key-prefix blacklist, snapshot dataset whose key names "+
 			"carry every brace arrangement, stream of 6–12 committable units [single-slot commands/transactions over the reference command table with 1–5 keys placed in one slot by brace shape, "+
 			"arbitrary brace-dense one-key units, near-miss same-slot pairs, COMMAND GETKEYS-resolved commands, filter-reduced units] followed by nothing / a cross-slot unit / an undeterminable unit and 1–3 units behind it) "+
-			"+ refusal-report probes (empty snapshot, 1–2 committable units, then the refusable unit behind the gate; sync-heavy); "+
+			"+ refusal-report probes (empty snapshot, 1–2 committable units, then the refusable unit behind the gate; sync-heavy) "+
+			"+ snapshot-completeness cases (150–400 keys over all nodes, 2–8 snapshot workers, one slow node holding all keys of one worker, fault none / -OOM at queue time / -OOM at EXEC on that worker's last key, replaceHashTag on/off); "+
 			"non-trivial = the unit's outcome was observed on the cluster's request log; distinct = (mode, unit class, key-class tuple, outcome)")
 	run.Watchdog(28 * time.Minute)
 	run.MinDistinct(12)
 	n := run.N(110, 1100)
 	nProbe := run.N(40, 450)
+	nSnap := run.N(12, 160)
 	run.Set("double_commands_registered_from_ref_table", len(added))
 	run.Assume("cluster double (fakeredis): one cluster-wide lock serialises all nodes; slots by ref.HashSlot; MOVED / CROSSSLOT decided as Redis 7 getNodeByQuery does at queue time and again at EXEC over all queued keys; a MULTI block is executed only by the owner of its single slot")
 	run.Assume("the double routes — and answers COMMAND GETKEYS for — every command of the reference key table by the reference key positions (fakeredis.RegisterRefCommands); business writes are logged and answered +OK, not executed (no type clashes); the reserved bookkeeping namespace is executed for real")
@@ -180,12 +227,23 @@ func main() {
 	run.Assume("the topology is stable: any MOVED / ASK / TRYAGAIN / CROSSSLOT reply served to the tool is caused by where / how the tool sent a block")
 	run.Assume("key-less instances (EVAL … 0) and SORT with external BY/GET patterns are outside the quantifier and are not generated; generated requests pass the double's arity check (a master propagates nothing else)")
 	run.Assume("a refused unit's COMMAND GETKEYS introspection requests carry its arguments; they are not counted as 'a request belonging to the unit'")
+	run.Assume("output.replay.replaceHashTag is honoured by the snapshot path only (the key the target receives = source key without its first '{' and first '}'; the filter is evaluated on the source key); the incremental path of the tool does not read the option, so stream units are expected under their source names with or without it")
+	run.Assume("snapshot-completeness cases: 'committed before Send returned' = the block's EXEC is among the requests the cluster had processed when Send(snapshot) returned (request counter read right after the return); one node delays its EXEC replies (back-pressure only); a target error = -OOM to the first command of one key's block (EXEC then answers EXECABORT) or -OOM to that block's EXEC")
 
 	slotTagFirstUse(run)
 
 	d := newDriver()
 	defer d.Close()
-	harness.Parallel(n+nProbe, 14, func(i int) {
+	harness.Parallel(n+nProbe+nSnap, 14, func(i int) {
+		if i >= n+nProbe {
+			k := i - n - nProbe
+			key := fmt.Sprintf("snap-%d", k)
+			if run.WantCase(key) {
+				r := run.Rand(key)
+				oneCase(run, d, key, 200000+k, r, snapCase(k, r))
+			}
+			return
+		}
 		if i >= n {
 			key := fmt.Sprintf("probe-%d", i-n)
 			if run.WantCase(key) {
@@ -242,6 +300,15 @@ func oneCase(run *harness.Run, d *driver, key string, idx int, r *rand.Rand, cc 
 		return len(args) == 0 || !drive.Reserved(args[0])
 	}})
 	defer cl.Close()
+	if cc.SlowNode >= 0 {
+		// back-pressure only: this node's EXEC replies are 1–2 ms late
+		d := time.Duration(1000+r.Intn(1000)) * time.Microsecond
+		cl.Node(cc.SlowNode).ReplyDelay = func(cmd string) {
+			if cmd == "EXEC" {
+				time.Sleep(d)
+			}
+		}
+	}
 
 	target, err := clusterRedis(cl, cc.Nodes)
 	if err != nil {
@@ -255,7 +322,8 @@ func oneCase(run *harness.Run, d *driver, key string, idx int, r *rand.Rand, cc 
 	fc := ref.FilterConfig{PrefixBlack: black, Bookkeeping: []string{config.CheckpointKey, config.NamespacePrefixKey}}
 	filter := ref.NewFilter(fc)
 
-	out, err := d.open(target, openCfg{Mode: cc.Mode, Window: cc.Window, Parallelism: cc.Parallelism, Restore: cc.Snapshot != "expanded", PrefixBlack: black})
+	out, err := d.open(target, openCfg{Mode: cc.Mode, Window: cc.Window, Parallelism: cc.Parallelism, Restore: cc.Snapshot != "expanded", PrefixBlack: black,
+		ReplaceTag: cc.ReplaceTag, RdbParallel: cc.RdbParallel})
 	if err != nil {
 		run.Inconclusive("%s: start-up bookkeeping (VerifNewOutput): %v", key, err)
 		return
@@ -278,17 +346,46 @@ func oneCase(run *harness.Run, d *driver, key string, idx int, r *rand.Rand, cc 
 	}
 
 	// ---- snapshot phase
-	snap := genSnapshot(r, cc.Snapshot, hist, black, filter)
+	var snap *snapshot
+	if cc.SnapOnly {
+		snap = genLargeSnapshot(r, cc.Snapshot, hist, black, filter, cc.ReplaceTag, cc.SnapKeys, cc.RdbParallel, cc.SlowNode, cl)
+	} else {
+		snap = genSnapshot(r, cc.Snapshot, hist, black, filter, cc.ReplaceTag)
+	}
 	base := int64(1000 + r.Intn(100000))
 	ss := &drive.Session{IDs: ids, Out: out, Watch: 180 * time.Second}
-	snapErr := ss.FullSync(ctx, snap.File, base)
-	if snapErr == drive.ErrWatchdog {
+	var flt *fault
+	if cc.Fault != "" {
+		flt = installFault(cl, cc, snap)
+	}
+	snapErr, reqAtReturn, returned := fullSync(ctx, out, cl, ids[0], snap.File, base, ss.Watch)
+	if !returned {
 		run.Inconclusive("%s: watchdog: snapshot replay did not return", key)
 		return
 	}
 	lap("snapshot replay")
+	if flt != nil {
+		cl.Node(cc.SlowNode).SetHooks(nil, nil, nil)
+	}
+	if cc.SnapOnly && !cl.WaitIdle(100*time.Millisecond, 20*time.Second) {
+		run.Inconclusive("%s: cluster double did not become idle after the snapshot replay returned", key)
+		return
+	}
 	snapReqs := cl.Requests()
 	snapBlocks, _ := blocksOf(snapReqs)
+	if flt != nil && !(snapErr != nil && isRefusal(errClass(snapErr))) {
+		// a target error was planted: Send must report it and must not store the snapshot's position
+		run.Eval(1)
+		run.Count("cases", 1)
+		run.Count("cases_snapshot_completeness", 1)
+		run.Seen("modes", modeS)
+		checkBlocks(run, key, cc, cl, snapBlocks, "snapshot", wit)
+		judgeFault(run, key, cc, cl, snap, flt, snapErr, base, ids[0], wit)
+		if snapErr == nil {
+			checkSnapshot(run, key, cc, cl, snap, snapBlocks, reqAtReturn, wit)
+		}
+		return
+	}
 	if snapErr != nil {
 		cls := errClass(snapErr)
 		if isRefusal(cls) {
@@ -297,14 +394,33 @@ func oneCase(run *harness.Run, d *driver, key string, idx int, r *rand.Rand, cc 
 			if len(snapBlocks) > 0 {
 				last = analyse(snapBlocks[len(snapBlocks)-1]).render()
 			}
-			run.Violation(fmt.Sprintf("snapshot-unit-refused|%s|%s|%s", cls, modeS, cc.Snapshot), key,
+			keys := snap.Keys
+			if len(keys) > 12 {
+				keys = keys[:12]
+			}
+			run.Violation(fmt.Sprintf("snapshot-unit-refused|%s|%s|%s%s", cls, modeS, cc.Snapshot, tagSig(cc)), key,
 				fmt.Sprintf("the snapshot replay was stopped by %q although every snapshot unit holds the commands of one key: %v", cls, snapErr),
-				wit(map[string]any{"send_error": snapErr.Error(), "snapshot_keys": snap.Keys, "last_block_received": last}))
+				wit(map[string]any{"send_error": snapErr.Error(), "snapshot_keys": keys, "last_block_received": last}))
 			checkBlocks(run, key, cc, cl, snapBlocks, "snapshot", wit)
 			run.Eval(1)
 			return
 		}
 		run.Inconclusive("%s: snapshot replay failed: %v", key, snapErr)
+		return
+	}
+	if cc.SnapOnly {
+		run.Eval(1)
+		run.Count("cases", 1)
+		run.Count("cases_snapshot_completeness", 1)
+		run.Seen("modes", modeS)
+		checkBlocks(run, key, cc, cl, snapBlocks, "snapshot", wit)
+		for kind, nr := range cl.Redirects() {
+			if nr > 0 {
+				run.Violation(fmt.Sprintf("cluster-redirect-served|%s|%s", kind, modeS), key,
+					fmt.Sprintf("the stable cluster served %d %s repl(ies) to the tool during the snapshot replay", nr, kind), wit(nil))
+			}
+		}
+		checkSnapshot(run, key, cc, cl, snap, snapBlocks, reqAtReturn, wit)
 		return
 	}
 	sp, err := out.StartPoint(ctx, ids)
@@ -345,7 +461,11 @@ func oneCase(run *harness.Run, d *driver, key string, idx int, r *rand.Rand, cc 
 	w.cutOff = int64(buf.Len())
 	switch cc.Terminal {
 	case "cross-slot":
-		w.poison = g.cross()
+		if cc.Directed >= 0 {
+			w.poison = g.crossMinimal(cc.Directed)
+		} else {
+			w.poison = g.cross()
+		}
 	case "undeterminable":
 		w.poison = g.unknown()
 	}
@@ -498,7 +618,7 @@ func oneCase(run *harness.Run, d *driver, key string, idx int, r *rand.Rand, cc 
 	}
 
 	// (2) snapshot units
-	checkSnapshot(run, key, cc, cl, snap, snapBlocks)
+	checkSnapshot(run, key, cc, cl, snap, snapBlocks, reqAtReturn, wit)
 
 	// (3) stream units
 	byUnit := map[string][]*blockInfo{}
@@ -800,27 +920,187 @@ func checkBlocks(run *harness.Run, key string, cc caseCfg, cl *fakeredis.Cluster
 	return infos
 }
 
-// checkSnapshot: every snapshot key that passes the filter was replayed in blocks that hold
-// only that key's commands.
-func checkSnapshot(run *harness.Run, key string, cc caseCfg, cl *fakeredis.Cluster, snap *snapshot, blocks []*block) {
+func tagSig(cc caseCfg) string {
+	if cc.ReplaceTag {
+		return "|replaceHashTag"
+	}
+	return ""
+}
+
+// fullSync replays a complete snapshot through Send and reads the cluster's request counter
+// right after Send returned: what the cluster had processed by then happened before the return.
+func fullSync(ctx context.Context, out *syncer.RedisOutput, cl *fakeredis.Cluster, runID string, rdb []byte, offset int64, watch time.Duration) (err error, reqAtReturn int64, returned bool) {
+	f := drive.NewFeeder(runID, offset, int64(len(rdb)), false, 4096)
+	f.Play([]drive.Step{{Data: rdb}}, true)
+	defer f.Abort()
+	type res struct {
+		err error
+		n   int64
+	}
+	done := make(chan res, 1)
+	go func() {
+		e := out.Send(ctx, f)
+		done <- res{e, cl.ReqCount()}
+	}()
+	select {
+	case x := <-done:
+		return x.err, x.n, true
+	case <-time.After(watch):
+		return nil, 0, false
+	}
+}
+
+// fault: one node refuses the block of one snapshot key.
+type fault struct {
+	mu     sync.Mutex
+	ID     string
+	Kind   string
+	conn   int64
+	Fired  int
+	FiredQ string
+}
+
+const oomReply = "OOM command not allowed when used memory > 'maxmemory'."
+
+// installFault plants the target error on the slow node: the victim is the last key (in snapshot
+// order) of the worker whose keys live there.
+func installFault(cl *fakeredis.Cluster, cc caseCfg, snap *snapshot) *fault {
+	f := &fault{Kind: cc.Fault, conn: -1}
+	for _, k := range snap.Keys {
+		if k.Worker == 0 && !k.Filtered {
+			f.ID = k.ID
+		}
+	}
+	if f.ID == "" {
+		return f
+	}
+	cl.Node(cc.SlowNode).SetHooks(nil, func(q *fakeredis.Req) (fakeredis.Reply, bool) {
+		f.mu.Lock()
+		defer f.mu.Unlock()
+		if q.Cmd == "COMMAND" || q.Cmd == "EXISTS" {
+			return nil, false
+		}
+		mine := gen.FindID(q.Args) == f.ID
+		switch f.Kind {
+		case "oom-queued":
+			if mine && f.Fired == 0 {
+				f.Fired++
+				f.FiredQ = fmt.Sprintf("%s %.80q", q.Cmd, q.Args)
+				return fakeredis.Err(oomReply), true
+			}
+		case "oom-exec":
+			if mine {
+				f.conn = q.Conn
+			} else if q.Cmd == "EXEC" && q.Conn == f.conn && f.Fired == 0 {
+				f.Fired++
+				f.FiredQ = "EXEC"
+				return fakeredis.Err(oomReply), true
+			}
+		}
+		return nil, false
+	}, nil)
+	return f
+}
+
+// storedPosition reads the resume position the tool stored on the target for runID (root
+// checkpoint hash of the namespace the run id points to).
+func storedPosition(cl *fakeredis.Cluster, runID string) (name string, off int64, ok bool) {
+	_, h := cl.Lookup(config.CheckpointKeyHashKey)
+	if h == nil || h.Kind != fakeredis.KHash {
+		return "", 0, false
+	}
+	name = string(h.Hash[runID])
+	if name == "" {
+		return "", 0, false
+	}
+	_, cp := cl.Lookup(name)
+	if cp == nil || cp.Kind != fakeredis.KHash {
+		return name, 0, false
+	}
+	v, found := cp.Hash[(&checkpoint.CheckpointInfo{RunId: runID}).OffsetKey()]
+	if !found {
+		return name, 0, false
+	}
+	off, err := strconv.ParseInt(string(v), 10, 64)
+	return name, off, err == nil
+}
+
+func judgeFault(run *harness.Run, key string, cc caseCfg, cl *fakeredis.Cluster, snap *snapshot, f *fault, snapErr error, base int64, runID string, wit func(map[string]any) map[string]any) {
+	modeS := string(cc.Mode)
+	f.mu.Lock()
+	fired, firedQ := f.Fired, f.FiredQ
+	f.mu.Unlock()
+	name, off, has := storedPosition(cl, runID)
+	ex := map[string]any{"victim_key": snap.ByID[f.ID], "fault": f.Kind, "fault_fired_on": firedQ, "send_error": fmt.Sprint(snapErr),
+		"snapshot_offset": base, "stored_resume_offset": off, "stored_resume_offset_present": has, "checkpoint_name": name, "snapshot_keys": len(snap.Keys)}
+	oc := "reported"
+	switch {
+	case fired == 0 && snapErr != nil:
+		run.Inconclusive("%s: the snapshot replay failed before the planted target error was reached: %v", key, snapErr)
+		return
+	case fired == 0:
+		// Send returned nil without ever sending the victim's block: the completeness clause speaks
+		oc = "victim-never-sent"
+	case snapErr == nil:
+		oc = "lost"
+		run.Violation(fmt.Sprintf("snapshot-target-error-lost|%s|%s|workers=%d", f.Kind, modeS, cc.RdbParallel), key,
+			fmt.Sprintf("node %d answered %s of snapshot key %s with -OOM, Send(snapshot) returned nil: an incomplete snapshot replay was reported as completed", cc.SlowNode, firedQ, snap.ByID[f.ID].KeyQ),
+			wit(ex))
+	}
+	if fired > 0 && has && off == base {
+		run.Violation(fmt.Sprintf("snapshot-position-stored-after-target-error|%s|%s|workers=%d", f.Kind, modeS, cc.RdbParallel), key,
+			fmt.Sprintf("node %d refused a snapshot block (-OOM) and the stored resume position is the snapshot's offset %d: the next start resumes behind a snapshot that was not applied", cc.SlowNode, base),
+			wit(ex))
+		oc += "+position-stored"
+	}
+	if os.Getenv("C18_TIMING") != "" {
+		fmt.Printf("%s: fault %s fired=%d on %q sendErr=%v stored=%d/%v base=%d outcome=%s\n", key, f.Kind, fired, firedQ, snapErr, off, has, base, oc)
+	}
+	run.Count("snapshot_target_errors_planted", 1)
+	run.Count("snapshot_target_errors:"+oc, 1)
+	run.Distinct(fmt.Sprintf("%s|snapshot-target-error/%s|workers=%d|%s", modeS, f.Kind, cc.RdbParallel, oc))
+}
+
+// checkSnapshot: Send(snapshot) returned nil ⇒ every snapshot key that passes the filter had a
+// committed block — its commands only, executed in a MULTI/EXEC — before Send returned.
+func checkSnapshot(run *harness.Run, key string, cc caseCfg, cl *fakeredis.Cluster, snap *snapshot, blocks []*block, reqAtReturn int64, wit func(map[string]any) map[string]any) {
 	if snap.Kind == "empty" {
 		return
 	}
 	modeS := string(cc.Mode)
-	seen := map[string]int{}
+	seen := map[string]int{}     // committed blocks whose EXEC was processed before Send returned
+	seenLate := map[string]int{} // ... afterwards
+	sentAny := map[string]int{}
 	global := map[int]int{}
+	named := map[string]bool{}
 	for _, b := range blocks {
 		bi := analyse(b)
 		if len(bi.Keyless) > 0 && b.committed() {
 			global[b.Node]++
 		}
+		for _, id := range bi.IDs {
+			sentAny[id]++
+		}
 		if !b.committed() {
 			continue
 		}
 		for _, id := range bi.IDs {
-			seen[id]++
+			if b.GReqExec <= reqAtReturn {
+				seen[id]++
+			} else {
+				seenLate[id]++
+			}
+			if k := snap.ByID[id]; k != nil {
+				for _, bk := range bi.Keys {
+					if bk.What == "business" && !bytes.Equal(bk.Key, k.Target) {
+						named[id] = true
+					}
+				}
+			}
 		}
 	}
+	var missing []*snapKey
+	byWorker := map[int]int{}
 	for _, k := range snap.Keys {
 		run.Count("units", 1)
 		run.Seen("brace_classes", k.KeyClass)
@@ -829,17 +1109,61 @@ func checkSnapshot(run *harness.Run, key string, cc caseCfg, cl *fakeredis.Clust
 		switch {
 		case k.Filtered:
 			oc = "withheld"
-			if seen[k.ID] > 0 {
+			if sentAny[k.ID] > 0 {
 				oc = "forwarded"
 			}
 		case seen[k.ID] == 0:
-			oc = "not-replayed"
-			run.Count("snapshot_keys_without_a_block(not judged here, C03)", 1)
+			oc = "not-committed-before-return"
+			missing = append(missing, k)
+			byWorker[k.Worker]++
+		}
+		if named[k.ID] {
+			run.Count("snapshot_keys_written_under_another_name_than_expected(not judged here)", 1)
 		}
 		run.Count("units:"+string(clsSnapshot)+":"+oc, 1)
 		if oc == "committed" {
-			run.Distinct(fmt.Sprintf("%s|%s/%s|%s|%s", modeS, clsSnapshot, snap.Kind, k.KeyClass, oc))
+			run.Distinct(fmt.Sprintf("%s|%s/%s%s|%s|%s", modeS, clsSnapshot, snap.Kind, tagSig(cc), k.KeyClass, oc))
 		}
+	}
+	run.Count("snapshot_replays_reported_complete", 1)
+	if os.Getenv("C18_TIMING") != "" {
+		fmt.Printf("%s: snapshot reported complete: %d keys, %d missing (by worker %v) [%s]\n", key, len(snap.Keys), len(missing), byWorker, cc)
+		lastOf := map[int]int64{}
+		nOf := map[int]int{}
+		for _, b := range blocks {
+			for _, id := range analyse(b).IDs {
+				if k := snap.ByID[id]; k != nil {
+					nOf[k.Worker]++
+					if b.GReqExec > lastOf[k.Worker] {
+						lastOf[k.Worker] = b.GReqExec
+					}
+				}
+			}
+		}
+		fmt.Printf("%s: blocks per tool worker %v, last EXEC request number per worker %v, requests at return %d, at idle %d\n", key, nOf, lastOf, reqAtReturn, cl.ReqCount())
+	}
+	if len(missing) > 0 {
+		late, never := 0, 0
+		var first []map[string]any
+		for _, k := range missing {
+			if seenLate[k.ID] > 0 {
+				late++
+			} else if sentAny[k.ID] == 0 {
+				never++
+			}
+			if len(first) < 8 {
+				first = append(first, map[string]any{"id": k.ID, "source_key": k.KeyQ, "target_key": k.TargetQ, "slot": k.Slot, "owner": cl.Owner(k.Slot), "tool_worker": k.Worker,
+					"blocks_sent": sentAny[k.ID], "committed_after_return": seenLate[k.ID]})
+			}
+		}
+		_, off, has := storedPosition(cl, sourceRunIDs()[0])
+		run.Violation(fmt.Sprintf("snapshot-reported-complete-with-keys-missing|%s|%s|workers=%d", modeS, snap.Kind, cc.RdbParallel), key,
+			fmt.Sprintf("Send(snapshot) returned nil, but %d of %d snapshot keys that pass the filter had no committed block when it returned (%d committed later, %d never sent)",
+				len(missing), len(snap.Keys), late, never),
+			wit(map[string]any{"missing_keys": len(missing), "missing_by_tool_worker": byWorker, "first_missing": first, "requests_processed_when_send_returned": reqAtReturn,
+				"requests_processed_at_idle": cl.ReqCount(), "stored_resume_offset": off, "stored_resume_offset_present": has}))
+	} else if cc.SnapOnly {
+		run.Distinct(fmt.Sprintf("%s|snapshot-complete/%s%s|workers=%d|keys>=150", modeS, snap.Kind, tagSig(cc), cc.RdbParallel))
 	}
 	if snap.Functions > 0 || snap.LuaAux {
 		nodes := 0
